@@ -69,12 +69,13 @@ def make_source(src, n_or_data):
   if bad:
     from props.c12 import FailingSeq  # pylint: disable=g-import-not-at-top
   if kind == 'seq':
-    s = io.SequenceDataSource(FailingSeq(data, bad, 'ValueError'), ignore_error=True) if bad else io.SequenceDataSource(data)
+    s = io.SequenceDataSource(FailingSeq(data, bad, 'ValueError'), ignore_error=not src.get('skip_by_pipeline')) if bad else io.SequenceDataSource(data)
   elif kind == 'multi':
     cuts = [0] + sorted(min(c, len(data)) for c in src['cuts']) + [len(data)]
     if bad:
       s = io.SequenceDataSource.from_sequences(
-          [FailingSeq(data[a:b], [q - a for q in bad if a <= q < b], 'ValueError') for a, b in zip(cuts, cuts[1:])], ignore_error=True)
+          [FailingSeq(data[a:b], [q - a for q in bad if a <= q < b], 'ValueError') for a, b in zip(cuts, cuts[1:])],
+          ignore_error=not src.get('skip_by_pipeline'))
     else:
       s = io.SequenceDataSource.from_sequences([data[a:b] for a, b in zip(cuts, cuts[1:])])
   elif kind == 'iterable':
@@ -150,7 +151,7 @@ def run_history(case):
   def fresh():
     src = make_source(case['source'], copy.deepcopy(data))
     if is_pipeline:
-      if case['pipeline'].get('fail_b'):
+      if case['pipeline'].get('fail_b') or case['source'].get('skip_by_pipeline'):
         # a later operator fails on some batches and the run skips them: a restored run keeps skipping them
         return build_pipeline(case, src).make().iterate(ignore_error=True)
       return build_pipeline(case, src).make().iterate()
@@ -260,7 +261,7 @@ def _source(draw, n, allow_iterable=True, hashable=False):
     shards.append([draw(st.integers(0, k - 1)), k, draw(st.sampled_from([0, 0, 1, 2]))])
   if shards:
     src['shards'] = shards
-  if not kind.startswith('iterable') and n and draw(st.integers(0, 3)) == 0:
+  if not kind.startswith('iterable') and n and draw(st.integers(0, 2)) == 0:
     src['bad'] = sorted(set(draw(st.lists(st.integers(0, n - 1), min_size=1, max_size=3))))
   return src
 
@@ -290,7 +291,11 @@ def _pipeline_case(draw, maxops, threads):
     pipe['third_stage'] = draw(st.sampled_from([None, None, 'plain', 'agg']))
   if not pipe['rebatch'] and draw(st.integers(0, 3)) == 0:
     pipe['fail_b'] = True
-  return {'source': _source(draw, nb), 'data': data, 'pipeline': pipe, 'num_threads': draw(st.sampled_from(threads)),
+  source = _source(draw, nb)
+  if source.get('bad') and draw(st.integers(0, 2)) > 0:
+    # the failing reads are skipped by the *run* (iterate(ignore_error=True)), the data source itself does not skip
+    source['skip_by_pipeline'] = True
+  return {'source': source, 'data': data, 'pipeline': pipe, 'num_threads': draw(st.sampled_from(threads)),
           'ops': _ops(draw, maxops)}
 
 
